@@ -347,7 +347,12 @@ func (cl *cluster) key() string {
 		}
 	}
 	sort.Strings(bl)
-	fmt.Fprintf(&b, "B %v sticky=%v task=%s\n", bl, cl.stickyREST, cl.taskDesc())
+	var pa []string
+	for i, t := range cl.adds {
+		pa = append(pa, fmt.Sprintf("n%d:done=%v", i, t.done))
+	}
+	sort.Strings(pa)
+	fmt.Fprintf(&b, "B %v sticky=%v task=%s adds=%v\n", bl, cl.stickyREST, cl.taskDesc(), pa)
 	var ack []string
 	for id := 1; id <= cl.nWrites; id++ {
 		ack = append(ack, fmt.Sprintf("%v@%d", cl.acked[id], blockOf(id)))
@@ -447,6 +452,24 @@ func (cl *cluster) enabled() []string {
 			for i := range cl.nodes {
 				if _, ok := attached[i]; !ok && !cl.down[i] {
 					out = append(out, fmt.Sprintf("Add:%d", i))
+				}
+			}
+		case "AddB":
+			if len(v.Replicas) == 0 || (c.MaxAdds > 0 && cl.nAdds >= c.MaxAdds) {
+				continue
+			}
+			for i := range cl.nodes {
+				if _, busy := cl.adds[i]; busy || cl.down[i] {
+					continue
+				}
+				if _, ok := attached[i]; !ok {
+					out = append(out, fmt.Sprintf("AddB:%d", i))
+				}
+			}
+		case "AddF":
+			for i, t := range cl.adds {
+				if !t.done || true {
+					out = append(out, fmt.Sprintf("AddF:%d", i))
 				}
 			}
 		case "AddDup":
